@@ -163,9 +163,10 @@ def h_history(ctx, ctor=(), depth=2, ops="quick", twin=False, op0=None):
         try:
             d = I.IOData(**kw)
         except TypeError:
-            # allowed only when orbitals are combined with nelec/spinpol
+            # allowed only when orbitals are combined with an electron count, a spin polarisation or a charge (which fixes the
+            # electron count as soon as the core charges are known)
             ctx.oblige("ctor:TypeError-only-with-mo-and-nelec/spinpol",
-                       "mo" in ctor and ("nelec" in ctor or "spinpol" in ctor), cls=str(ctor))
+                       "mo" in ctor and ("nelec" in ctor or "spinpol" in ctor or "charge" in ctor), cls=str(ctor))
             return
         spec.atnums = kw.get("atnums")
         spec.had_atnums = spec.atnums is not None
@@ -177,8 +178,12 @@ def h_history(ctx, ctor=(), depth=2, ops="quick", twin=False, op0=None):
         assigned = {k: kw[k] for k in ("charge", "nelec", "spinpol") if k in kw}
         # with both charge and nelec given the core charges decide; read-back of the ctor args:
         if "mo" not in ctor:
-            if "nelec" in kw:
+            if "nelec" in kw and "charge" not in kw:
                 ctx.oblige("ctor:nelec-reads-back", ctx.eq(d.nelec, kw["nelec"]), cls=str(ctor))
+            if "nelec" in kw and "charge" in kw:
+                # two arguments that may contradict each other: one of them wins (the statement does not say which); the
+                # invariant charge = core charges - nelec is checked below like after any other step
+                ctx.oblige("ctor:charge-or-nelec-reads-back", core.Or(ctx.eq(d.nelec, kw["nelec"]), ctx.eq(d.charge, kw["charge"])), cls=str(ctor))
             if "spinpol" in kw:
                 ctx.oblige("ctor:spinpol-reads-back", ctx.eq(d.spinpol, kw["spinpol"]), cls=str(ctor))
             if "charge" in kw and "nelec" not in kw:
